@@ -55,7 +55,7 @@ theorem setOne_eq_route (tree : Val) (k : OutKey) (o : Val) : setOne tree k o = 
   | dict items => simp [setOne, Ref.route]
   | key k =>
     cases k with
-    | skip => cases tree <;> simp [setOne, Ref.route, setKey, skipFixed]
+    | skip => simp [setOne, Ref.route, setKey, skipFixed]
     | self => simp [setOne, Ref.route, setKey]
     | name s => simp [setOne, Ref.route]
     | index i => simp [setOne, Ref.route]
